@@ -42,7 +42,11 @@ EnvelopeFails(e) ==
 
 StructFails(e) == Tag(e.err = "" /\ "back" \in DOMAIN e /\ e.back = e.doc, "C17.struct")
 
+\* a text / JSON value decoded into a variable that held another value before is the value of the text alone
+ReuseFails(e) == IF e.err2 # "" \/ e.errfresh # "" THEN Tag(e.err2 = e.errfresh, "C17.roundtrip")
+                 ELSE Tag(e.used = e.fresh, "C17.roundtrip")
 Fails(e) == CASE e.ev = "num" -> NumFails(e)
+              [] e.ev = "reuse" -> ReuseFails(e)
               [] e.ev = "hex" -> HexFails(e)
               [] e.ev = "time" -> TimeFails(e)
               [] e.ev = "envelope" -> EnvelopeFails(e)
